@@ -36,13 +36,17 @@ def main():
         tier = sys.argv[sys.argv.index('--tier') + 1]
         args = [a for a in args if a != tier]
     skip_tests = '--skip-tests' in sys.argv
-    ids = args or sorted(p.name for p in (VERIF / 'seeded').iterdir() if (p / 'patch.diff').exists())
+    sub = 'seeded'
+    if '--dir' in sys.argv:       # --dir harmless : behaviour-preserving rewrites, the check must stay silent (exit 0)
+        sub = sys.argv[sys.argv.index('--dir') + 1]
+        args = [a for a in args if a != sub]
+    ids = args or sorted(p.name for p in (VERIF / sub).iterdir() if (p / 'patch.diff').exists())
     results = {}
-    rf = VERIF / 'seeded' / 'RESULTS.json'
+    rf = VERIF / sub / 'RESULTS.json'
     if rf.exists():
         results = json.loads(rf.read_text())
     for sid in ids:
-        d = VERIF / 'seeded' / sid
+        d = VERIF / sub / sid
         meta = json.loads((d / 'meta.json').read_text())
         prop = meta['property']
         tmp = Path(tempfile.mkdtemp(prefix='seeded_'))
@@ -73,6 +77,7 @@ def main():
             res['violation_lines'] = [l for l in out.splitlines() if l.startswith('VIOLATION')][:5]
             res['detail'] = [l.strip() for l in out.splitlines() if l.startswith('  ')][:5]
             res['caught'] = rc == 1 and bool(res['violation_lines'])
+            res['silent'] = rc == 0 and not res['violation_lines']
         finally:
             sh(['git', '-C', str(REPO), 'worktree', 'remove', '--force', str(wt)])
             shutil.rmtree(tmp, ignore_errors=True)
@@ -80,7 +85,7 @@ def main():
             print(sid, json.dumps(res)[:600], flush=True)
     rf.write_text(json.dumps(results, indent=1, sort_keys=True) + '\n')
     # the extracted tables and evidence now describe the scratch tree: regenerate them for /repo
-    print('caught', sum(1 for r in results.values() if r.get('caught')), 'of', len(results))
+    print('caught', sum(1 for r in results.values() if r.get('caught')), 'silent', sum(1 for r in results.values() if r.get('silent')), 'of', len(results))
 
 
 if __name__ == '__main__':
